@@ -3,6 +3,10 @@ package props
 import (
 	"fmt"
 	"math/bits"
+	"os"
+	"os/exec"
+	"strings"
+	"sync"
 
 	"github.com/akalin/gopar/gf2"
 	"github.com/akalin/gopar/gf2p16"
@@ -59,6 +63,57 @@ func sparsePolys(maxTerms int) []uint64 {
 }
 
 var c08Sparse3, c08Sparse2 []uint64
+
+// c08FirstUse is "vcheck aux c08-first-use <rep>": 16 goroutines wait on a barrier, then each makes 512 calls of each
+// field operation (a different operation first in each goroutine) and compares with the reference.
+func c08FirstUse(args []string) int {
+	rep := 0
+	if len(args) > 0 {
+		fmt.Sscan(args[0], &rep)
+	}
+	const G = 16
+	start := make(chan struct{})
+	errs := make(chan string, G)
+	var wg sync.WaitGroup
+	for g := 0; g < G; g++ {
+		wg.Add(1)
+		go func(g int) {
+			defer wg.Done()
+			<-start
+			for k := 0; k < 4; k++ {
+				op := (g + k + rep) % 4
+				for i := 0; i < 512; i++ {
+					a := uint16(0xffff - (i*97+g*4099)%65535)
+					b := uint16(1 + (i*131+g*7)%65535)
+					var got, want uint16
+					switch op {
+					case 0:
+						got, want = uint16(gf2p16.T(a).Inverse()), gf16.Inv(a)
+					case 1:
+						got, want = uint16(gf2p16.T(a).Div(gf2p16.T(b))), gf16.Mul(a, gf16.Inv(b))
+					case 2:
+						got, want = uint16(gf2p16.T(a).Times(gf2p16.T(b))), gf16.Mul(a, b)
+					default:
+						got, want = uint16(gf2p16.T(a).Pow(uint32(b))), gf16.Pow(a, uint64(b))
+					}
+					if got != want {
+						errs <- fmt.Sprintf("WRONG goroutine %d op %d a=%#x b=%#x: %#x, want %#x", g, op, a, b, got, want)
+						return
+					}
+				}
+			}
+		}(g)
+	}
+	close(start)
+	wg.Wait()
+	select {
+	case e := <-errs:
+		fmt.Println(e)
+	default:
+		fmt.Println("ok")
+	}
+	return 0
+}
 
 func c08SeqBases() []uint16 {
 	b := []uint16{0, 1, 2, 3, 4, 0x8000, 0xffff, 0xfffe, 0x100b & 0xffff, 0x1234, 0x00ff, 0xff00}
@@ -131,11 +186,12 @@ func c08CheckPolyTimes(r *core.Rec, p, q uint64) {
 }
 
 func init() {
+	core.Aux["c08-first-use"] = c08FirstUse
 	core.Register(&core.Prop{
 		ID:    "C08",
 		Level: "model_checking",
 		Rule: "complete enumeration: all 2^32 (a,b) for Times and Div, all 65536 for Inverse, all 65536 bases x all 65535 exponent residues for Pow plus " +
-			"exponent classes up to 2^32-1, call histories (every ordered pair of 15 boundary exponents on each of 24 bases, alone and alternating with a second base; every ordered pair of 120 (operation, operands) calls of Times/Div/Inverse/Pow over an 8-symbol alphabet, each answer against the reference), Poly64 Times/Div on all pairs of degree<12 and all (<=3-term)x(<=2-term) polynomials of degree<64; " +
+			"exponent classes up to 2^32-1, call histories (every ordered pair of 15 boundary exponents on each of 24 bases, alone and alternating with a second base; every ordered pair of 120 (operation, operands) calls of Times/Div/Inverse/Pow over an 8-symbol alphabet, each answer against the reference; 8 fresh processes - half of them a race-detector build - whose first field operations come from 16 goroutines released together), Poly64 Times/Div on all pairs of degree<12 and all (<=3-term)x(<=2-term) polynomials of degree<64; " +
 			"a case is a chunk of operand space; non-trivial = chunk containing non-zero operands; states = operand tuples, transitions = gopar operations",
 		Assumptions: []string{
 			"reference = ref/gf16 (shift-and-xor multiplication modulo 0x1100B, own base-2 tables self-checked against the slow product) and a 128-bit carry-less product",
@@ -160,6 +216,7 @@ func init() {
 				g.Emit(&c08Case{Op: "pow_seq", Lo: lo, Hi: lo + 4})
 			}
 			g.Emit(&c08Case{Op: "op_seq"})
+			g.Emit(&c08Case{Op: "first_use"})
 			for lo := uint32(0); lo < 4096; lo += 64 {
 				g.Emit(&c08Case{Op: "poly_small", Lo: lo, Hi: lo + 64})
 			}
@@ -258,6 +315,34 @@ func init() {
 				r.AddStates(int(c.Hi-c.Lo) * 65535)
 				r.AddTransitions(int(c.Hi-c.Lo) * 65535)
 				r.Outcome(fmt.Sprint("p", h))
+				r.NontrivialCase()
+			case "first_use":
+				// fresh processes whose FIRST field operations come from 16 goroutines released together: anything built
+				// lazily on first use is built under contention. Each process checks every answer against the reference;
+				// half of the processes are the race-detector build (an unsynchronised read of a table another goroutine is
+				// still filling is reported whatever the timing).
+				bins := []string{os.Args[0]}
+				if rb := os.Getenv("VERIF_BIN_RACE"); rb != "" {
+					bins = append(bins, rb)
+				} else {
+					r.Note("first-use probe: no race-detector build available")
+				}
+				n := 0
+				for rep := 0; rep < 4; rep++ {
+					for _, b := range bins {
+						cmd := exec.Command(b, "aux", "c08-first-use", fmt.Sprint(rep))
+						cmd.Env = append(os.Environ(), "GORACE=halt_on_error=1 exitcode=66")
+						out, err := cmd.CombinedOutput()
+						n++
+						if err != nil || strings.TrimSpace(string(out)) != "ok" {
+							r.Violatef("field-op-wrong-on-concurrent-first-use", "a fresh process (%s build) whose first field operations came from 16 goroutines at once: %v\n%s", map[bool]string{true: "race-detector", false: "normal"}[b != os.Args[0]], err, tailOf(string(out), 1200))
+							return
+						}
+					}
+				}
+				r.AddStates(n)
+				r.AddTransitions(n * 16 * 4 * 512)
+				r.Outcome("first_use")
 				r.NontrivialCase()
 			case "pow_seq":
 				// Pow(a,p1) then Pow(b,p2) then Pow(a,p3): every ordered pair of boundary exponents on one base, and every
